@@ -259,6 +259,7 @@ def check_cases(rep: Report, cases, stream: str):
         rep.case(nontrivial_key=(fn, repr(kw_json(fn, kw))) if nontriv else None,
                  sample={"request": lines[0], "model": outs[0]} if rep.evaluations == 0 else None)
         msg = outcomes_agree(real, model)
+        rep.traces += 1
         if msg is None:
             continue
         nbad += 1
